@@ -62,10 +62,12 @@ const (
 	// that does not exist, while a directory spelled like the escaped form
 	// does: exactly the path is tried, so the target cannot be opened
 	tkEscapedMissing
+	// tkDriveLike: see target()
+	tkDriveLike
 	nTargetKinds
 )
 
-var c19kindNames = [...]string{"zsim", "zsim-fails", "file-url", "bare-path", "file-localhost", "missing-dir", "is-a-dir", "invalid-url", "unknown-scheme", "upper-case-scheme", "relative-path", "file-upper-case-scheme", "file-escaped-path", "stdout/stderr", "empty-string", "escaped-path-in-missing-dir"}
+var c19kindNames = [...]string{"zsim", "zsim-fails", "file-url", "bare-path", "file-localhost", "missing-dir", "is-a-dir", "invalid-url", "unknown-scheme", "upper-case-scheme", "relative-path", "file-upper-case-scheme", "file-escaped-path", "stdout/stderr", "empty-string", "escaped-path-in-missing-dir", "drive-like-first-segment"}
 
 var c19badURLs = []string{
 	"file://user:pw@localhost%s",
@@ -95,6 +97,8 @@ type c19world struct {
 	table   map[string]func(u *url.URL) (zap.Sink, error)
 	n       int
 	targets []*c19target
+	// inScratch: the working directory is the scratch directory
+	inScratch bool
 }
 
 type c19sink struct {
@@ -105,7 +109,7 @@ type c19sink struct {
 func (w *c19world) target(g *zsim.Stream, f *zsim.Stream) *c19target {
 	w.n++
 	t := &c19target{}
-	t.kind = g.Weighted(5, 2, 3, 2, 1, 1, 1, 2, 1, 1, 1, 1, 1, 1, 1, 1)
+	t.kind = g.Weighted(5, 2, 3, 2, 1, 1, 1, 2, 1, 1, 1, 1, 1, 1, 1, 1, 1)
 	name := fmt.Sprintf("t%d", w.n)
 	switch t.kind {
 	case tkSim, tkSimFail, tkUpperScheme:
@@ -187,6 +191,17 @@ func (w *c19world) target(g *zsim.Stream, f *zsim.Stream) *c19target {
 		t.raw = ""
 		w.c.R.Probe("empty string as a target")
 		w.c.Fault("file-open-error")
+	case tkDriveLike:
+		// a file URL whose first path segment looks like a drive letter: it is an
+		// absolute path all the same (/q:/...), which does not exist, while the
+		// same spelling without the leading slash does, under the working directory
+		os.MkdirAll(filepath.Join(w.dir, "q:", name), 0o755)
+		t.raw = pick(g, "file://", "file://localhost") + "/" + pick(g, "q", "Q") + ":/" + name + "/" + name + ".log"
+		if !w.inScratch {
+			t.raw = "file:///q:/no-such-dir-" + name + "/" + name + ".log"
+		}
+		w.c.R.Probe("file URL with a drive-like first path segment")
+		w.c.Fault("file-open-error")
 	case tkEscapedMissing:
 		os.Mkdir(filepath.Join(w.dir, name+"%20d"), 0o755) // a directory literally named "…%20d"; "… d" does not exist
 		t.raw = "file://" + filepath.Join(w.dir, name+"%20d", name+".log")
@@ -252,6 +267,15 @@ func runC19(c *Ctx) {
 	defer os.RemoveAll(dir)
 	w := &c19world{c: c, dir: dir, table: map[string]func(u *url.URL) (zap.Sink, error){}}
 	useSimScheme(w.table)
+	// one run in eight works from inside its scratch directory (the process's
+	// working directory is the run's for its duration): only then can a path
+	// that ought to be absolute be told from one quietly taken as relative
+	if g.Chance(8) {
+		if wd, err := os.Getwd(); err == nil && os.Chdir(dir) == nil {
+			w.inScratch = true
+			defer os.Chdir(wd)
+		}
+	}
 	// standard streams of the run: two files outside the scratch directory
 	stdDir, err := os.MkdirTemp(base, "c19std-")
 	if err != nil {
